@@ -133,6 +133,12 @@ def gen(ctx):
             # nbytes larger than the source buffer: reads past it unless size cuts it down (outside the contract when it does not)
             c.add('ncpy %d %s %d' % (size, hexs(s), n + 2), None, incontract=False)
             c.add('ncpy %d %s %d' % (size, hexs(s), n + 40), None, incontract=False)
+    # src and dst inside one buffer at every distance -6..6 (the documented in-place shift)
+    for s in list(strings([0x61, 0x62, 0x80], 3)) + [b'#comment', b'http://www.example.org/index', rand_str(rng, ca, 40)]:
+        n = len(s)
+        for delta in range(-6, 7):
+            for size in sorted(set([1, 2, max(1, n - 1), max(1, n), n + 1, n + 2, n + 8])):
+                c.add('cpyov %d %d %s' % (delta, size, hexs(s)), 'spec cpyov %d %s' % (size, hexs(s)))
     fam['copy'] = c
     # ---- dup_between, memdup
     c = Cases()
@@ -285,6 +291,9 @@ def monitor(op, impl, spec):
         if impl != spec or unhex(impl) != format(n, ',').encode():
             return ({'op': 'comma', 'observed': 'wrong-result', 'input': 'INT_MIN' if n == -2**31 else 'other'},
                     'qstr_comma_number(%d) is not the comma-grouped decimal number' % n)
+    elif k == 'cpyov':
+        if impl != spec:
+            return bad('wrong-result-on-overlapping-buffers', 'qstrcpy with src and dst inside one buffer (distance %s): the string at dst is not firstn (size-1) src' % w[1])
     elif k == 'tokz':
         if impl != spec:
             return bad('wrong-result', 'qstrtokenizer fields differ from the reference definition')
